@@ -3,6 +3,7 @@ from .common import *
 
 
 def H1(ctx):
+    """Thread exit: take locals inside the execution, destroy them outside any execution borrow, then terminated -> schedule; destroyed slot yields AccessError."""
     prog = ctx.prog
     fk = "rt::thread_done"
     root = prog.ident(fk)
@@ -62,6 +63,7 @@ def H1(ctx):
 
 
 def H2(ctx):
+    """LocalKey::try_with: init() outside the borrow only if absent; registered once in the active thread's own map."""
     prog = ctx.prog
     fk = "thread::LocalKey::<T>::try_with"
     fn = need_fn(ctx, "H2", fk)
@@ -113,6 +115,7 @@ def H2(ctx):
 
 
 def H3(ctx):
+    """Lazy::get: init outside the borrow only if absent, re-check before registering; init_static refuses an occupied slot; one execution-wide map."""
     prog = ctx.prog
     fk = "lazy_static::Lazy::<T>::get"
     fn = need_fn(ctx, "H3", fk)
@@ -174,6 +177,7 @@ def H3(ctx):
 # ---------------------------------------------------------------------------------------- C18
 
 def U1(ctx):
+    """spin_loop / spin_loop_hint reach rt::yield_now on every path."""
     prog = ctx.prog
     roots = ["hint::spin_loop", "sync::atomic::spin_loop_hint", "rt::yield_now"]
     ids = [prog.ident(k) for k in roots]
@@ -193,6 +197,7 @@ def U1(ctx):
 
 
 def U2(ctx):
+    """yield_now: set_yield (state, last_yield, yield_count) -> operation = None -> schedule."""
     prog = ctx.prog
     ck = "rt::yield_now::{closure#0}"
     root = prog.ident(ck)
@@ -230,6 +235,7 @@ def U2(ctx):
 
 
 def U3(ctx):
+    """Scheduler re-activates yielded threads except the chosen one, seeds them as Thread::Yield; branch_thread promotes one when nothing else can run."""
     prog = ctx.prog
     fk = EXEC + "::schedule"
     fn = need_fn(ctx, "U3", fk)
@@ -285,6 +291,7 @@ def U3(ctx):
 
 
 def U4(ctx):
+    """Loads consult is_seen_before_yield only to drop a store for which a modification-order-later store exists."""
     prog = ctx.prog
     fk = "rt::atomic::State::match_load_to_stores"
     fn = need_fn(ctx, "U4", fk)
